@@ -391,8 +391,15 @@ def run(prog, check):
     check.ob('C05.R3', '%s::lookup-covers-all-variables' % cf.key, ok, cf.where,
              'lookup[local] = canonical name for every variable of the sector' if ok else
              'the qualification lookup is built from a subset of the variables', 'an equation referring to a variable left out')
-    applied = any(isinstance(c, ast.Call) and call_name(c) == 'replace_token_from_lookup' and len(c.args) == 2 and unparse(c.args[1]) == lkname
-                  for c in ast.walk(cf.node))
+    def lookup_arg(c):
+        if len(c.args) >= 2:
+            return c.args[1]
+        for kw_ in c.keywords:
+            if kw_.arg == 'lookup':
+                return kw_.value
+        return None
+    applied = any(isinstance(c, ast.Call) and call_name(c) == 'replace_token_from_lookup' and lookup_arg(c) is not None and
+                  unparse(lookup_arg(c)) == lkname for c in ast.walk(cf.node))
     check.ob('C05.R3', '%s::token-level-qualification' % cf.key, applied, cf.where,
              'right-hand sides are qualified with the token-level replacer' if applied else 'right-hand sides are not qualified token-wise with the full lookup',
              'a variable whose name is a prefix of another')
